@@ -212,6 +212,14 @@ CLAIMS = {
             "genuine defects (incl. a process crash) were repaired.",
             "The catalogue is finite (64 CSV texts, JSON documents to depth 2). Extra JSON keys not required to be errors. Trusted: file writers, canonical value rendering.",
             "TLA+ spec (readings / representability) + TLC-generated files run through the real datasources + TLC judging the recorded observations", "DESIGN.md 6/C24"),
+    "C30": ("exploration",
+            "SqlAst.tla defines a bounded universe of statement trees (OctoSQL's SELECT language with WITH, TRIGGER lists, table-valued functions with =>, TABLE(), "
+            "DESCRIPTOR(), LOOKUP/STREAM JOIN, ->, ->*, list indexing, regexp operators, chains of unary operators, back-quoted reserved words ...) and their text "
+            "(Render); TLC generates statements under its seed. The real parser parses each text, prints it, parses the printed text and both trees are compared by a "
+            "reflective canonical dump ignoring only redundant parentheses; also over the vendored parser test inputs and seeded token mutations. Six genuine printer "
+            "defects were repaired; two vitess-level ones are recorded.",
+            "Statements the parser rejects are outside the property. Trusted: the reflective dump.",
+            "spec-generated grammar universe (TLA+ trees rendered by TLC) replayed through the real parser/printer with a tree-equality oracle", "DESIGN.md 6/C30"),
 }
 
 NA_DEFAULT = "check not built yet (work in progress; will be claimed once its TLA+ spec and conformance harness are committed)"
